@@ -136,11 +136,11 @@ def _drive_traces(args):
             ev.append({'op': 'final', 'n': 0, 'bytes': list(got)})
         except BaseException as ex:  # noqa
             ev.append({'op': 'final', 'n': 0, 'bytes': [-1]})
-            ev[-1]['exc'] = drv.exc_outcome(ex)['cls']
+            ev[-1]['_exc'] = drv.exc_outcome(ex)['cls']
         if tid % 3 == 0:
             ev.append({'op': 'oneshot', 'n': 0, 'bytes': list(drv.run_oneshot_block(b''.join(chunks)))})
         traces.append({'tid': tid, 'kind': 'blocker', 'file': [], 'events': ev,
-                       'desc': 'writes %s then %s' % ([len(c) for c in chunks], fin)})
+                       '_desc': 'writes %s then %s' % ([len(c) for c in chunks], fin)})
     return traces
 
 
@@ -168,10 +168,10 @@ def trace_validation(rep, wd, tier, seed):
     chunks = core.split(list(range(n)), core.NCPU)
     with ProcessPoolExecutor(len(chunks)) as ex:
         batches = list(ex.map(_drive_traces, [(seed, c[0], c[-1] + 1) for c in chunks]))
-    rep.sample({'trace': batches[0][1]['desc'], 'file_len': len(batches[0][1]['events'][-1]['bytes'])})
+    rep.sample({'trace': batches[0][1]['_desc'], 'file_len': len(batches[0][1]['events'][-1]['bytes'])})
 
     def describe(t, r):
-        return {'history': t['desc'], 'event': r[2], 'clause': r[3],
+        return {'history': t['_desc'], 'event': r[2], 'clause': r[3],
                 'writes_hex': [bytes(e['bytes']).hex()[:80] for e in t['events'] if e['op'] == 'write'][:6],
                 'observed_len': len(t['events'][r[2] - 1]['bytes'])}
     validate_batches(rep, wd, 'Trace_Block', 'Trace_Block.cfg', batches, 'blocker-trace', describe)
